@@ -193,6 +193,24 @@ theorem locks_appear_only_by_owner_chain {c : Chain} (h : CInv c) (cop : COp) {l
     exact Or.inl ⟨l', hl', rfl⟩
   | setParams m f al => exact Or.inl ⟨l', hl', rfl⟩
 
+/-- the unlock clock is started only by the owner — never by a restart or a parameter change: a lock
+    whose unlocking started at `t0` either already carried that start time, or `t0` is the current
+    block time and the step is a begin-unlock signed by the lock's owner (end time = now + duration) -/
+theorem unlock_started_only_by_owner_chain {c : Chain} (h : CInv c) (cop : COp) {l' : Lock}
+    (hl' : l' ∈ (cstep c cop).1.s.locks) {t0 : Nat} (hs : l'.startedAt = some t0) :
+    (∃ l ∈ c.s.locks, l.id = l'.id ∧ l.startedAt = some t0) ∨
+    (t0 = c.s.now ∧ l'.endTime = some (c.s.now + l'.duration) ∧ ∃ id co, cop = .msg (.unlock l'.owner id co)) := by
+  cases cop with
+  | msg op =>
+    rcases unlock_started_only_by_owner c.p h.inv op hl' hs with h1 | ⟨h2, h3, id, co, rfl⟩
+    · exact Or.inl h1
+    · exact Or.inr ⟨h2, h3, id, co, rfl⟩
+  | restart =>
+    obtain ⟨hlk, _⟩ := cstep_nonmsg_frame h (op := .restart) (fun o => by simp)
+    rw [hlk] at hl'
+    exact Or.inl ⟨l', hl', rfl, hs⟩
+  | setParams m f al => exact Or.inl ⟨l', hl', rfl, hs⟩
+
 /-- **durations only grow** (one step of a chain's life): a lock keeps its owner and denom, its
     duration never shrinks and changes only by its owner's `MsgExtendLockup`; an unlocking lock's end
     time and duration are frozen — across restarts, and whatever the minimum duration is changed to -/
